@@ -125,12 +125,6 @@ Proof.
   - injection L' as <-. cbn in D. discriminate.
 Qed.
 
-Lemma chk_isame_core b d r : chk_isame d r = true -> chk_core_upto b r = chk_core_upto b d.
-Proof.
-  unfold chk_isame, chk_cmp, chk_core_upto. intros H. apply bool_decide_eq_true in H.
-  injection H as E1 E2 E3 E4 E5 E6. rewrite E1, E2, E3, E4. reflexivity.
-Qed.
-
 Lemma chk_isame_blank_core d r : chk_isame (chk_blank d) (chk_blank r) = true -> chk_core_upto true r = chk_core_upto true d.
 Proof.
   unfold chk_isame, chk_cmp, chk_core_upto, chk_blank. cbn. intros H. apply bool_decide_eq_true in H.
